@@ -23,12 +23,11 @@ with the field's own address -- never the expander's match arms):
     names                        := the generator computes snake_case(variant name) itself (rule below) and calls
                                     `is_<s>`, `unwrap_<s>[_ref|_mut]`, `try_unwrap_<s>[_ref|_mut]`; a wrong name does not build.
 
-"does not return" (no_return harnesses): `#[kani::proof] #[kani::should_panic]`, the input is restricted to the
-wrong variants, the accessor is called and the next statement is `returned_from_wrong_variant()`, which contains
-an (empty) `asm!` block.  Kani reports a reachable `asm!` as a failed check of class *unsupported_construct*,
-and `should_panic` succeeds iff there is at least one failed check and ALL failed checks are panics.  Hence the
-harness is SUCCESSFUL iff (a) for no wrong-variant input the call returns and (b) a panic is reached.  Natively
-(`cargo kani playback`) the empty asm is a no-op and the marker panics with "RETURNED", so a counterexample replays.
+"does not return" (kind="no_return" harnesses, see AUTHORING.md): `#[kani::proof] #[kani::should_panic]`, the input is
+restricted (kani::assume) to the wrong variants, the accessor is called and the next statement is
+`kani::cover!(true, "RETURNED")`, the only cover of the harness.  The core discharges the obligation iff Kani reports
+the should_panic harness SUCCESSFUL (>= 1 panic, nothing but panics) AND that cover is unreachable; a satisfiable cover
+is replayed natively (reproduced iff the native run does not panic).
 """
 from vlib.core import Family, Program, Harness
 
@@ -57,14 +56,6 @@ pub struct Wrap<T>(pub T);
 /// a `'static` reference to a fresh symbolic value (payloads of type `&'a X`)
 pub fn leak<X>(x: X) -> &'static X {
     Box::leak(Box::new(x))
-}
-
-/// Placed directly after a call that must not return.  Under Kani a reachable `asm!` is a failed check that is
-/// NOT a panic, which makes a `#[kani::should_panic]` harness fail; natively it is a no-op followed by a panic.
-#[inline(never)]
-pub fn returned_from_wrong_variant() {
-    unsafe { core::arch::asm!("") };
-    panic!("RETURNED: an unwrap accessor returned although the value is of a different variant");
 }
 '''
 
@@ -395,11 +386,10 @@ impl kani::Arbitrary for Ty {
                     self.add_proof(hn, ["        let mut v: Ty = kani::any();",
                                         "        kani::assume(!matches!(v, %s));" % v.anypat(),
                                         "        let _r = v.unwrap_%s%s();" % (v.snake, sfx),
-                                        "        returned_from_wrong_variant();"], should_panic=True)
+                                        '        kani::cover!(true, "RETURNED");'], should_panic=True)
                     self.hs.append(Harness(hn, "forall v: En with v NOT %s: v.unwrap_%s%s() panics and does not return "
-                                               "(should_panic harness: >= 1 panic and no failed check other than panics; the statement "
-                                               "after the call is a non-panic failure if reachable)" % (v.name, v.snake, sfx),
-                                           kind="should_panic", fn="generated En::unwrap_%s%s (impl/src/unwrap.rs)" % (v.snake, sfx)))
+                                               "(should_panic harness SUCCESSFUL and the cover placed after the call unreachable)" % (v.name, v.snake, sfx),
+                                           kind="no_return", fn="generated En::unwrap_%s%s (impl/src/unwrap.rs)" % (v.snake, sfx)))
 
     def gen_try_unwrap(self):
         en = self.enabled("try_unwrap")
@@ -699,8 +689,8 @@ def family(tier, seed):
             "rustc's pattern matching (`matches!`/`match` on the value) as the definition of 'v is X' and of 'X's fields in declaration order'",
             "std's #[derive(PartialEq, Clone, Copy)] on the generated enum and the probe payloads as the definition of 'unchanged original value'",
             "core::ptr::eq on non-zero-sized fields as the definition of 'the very same object'",
-            "Kani's should_panic semantics (SUCCESSFUL iff >= 1 failed check and every failed check is a panic) and its reporting of a "
-            "reachable `asm!` as a non-panic failed check: basis of the 'does not return' obligations",
+            "Kani's should_panic semantics (SUCCESSFUL iff >= 1 failed check and every failed check is a panic) and its cover "
+            "reachability verdict: basis of the 'does not return' obligations",
         ],
         assumptions=[
             "generic enums are verified at one instantiation (<'static, P3, 2>); the generated code is parametric in the arguments",
